@@ -68,6 +68,10 @@ CORPUS = [
      [(np.array([-1, 6, 13, -3, 4, 11, -5, 2], dtype="int64"), ((2, 2, 2, 2),))]),
     # F34: squeeze of a length-1 axis whose layout carries a zero-size chunk
     ("F34", ("squeeze", ("src", 0), 1), [(np.ones((3, 1), dtype="int64"), ((3,), (0, 1)))]),
+    # F33d: the tree of an arg reduction is laid out at construction for the advertised block count; a slice pushed through the
+    # elemwise below gives MORE blocks and the single PartialReduce(split_every=2) silently drops the rest
+    ("F33d", ("reduce", "argmin", ("slice", ("elem", "maximum", ("src", 0), ("src", 1)), (S(1, None, None),)), None, False, 2),
+     [(np.array([3, 1, 4, 1, 5, 9, 2], dtype="int64"), ((1, 6),)), (np.array([-2, 7, -1, 8, -2, -8, 10], dtype="int64"), ((2, 1, 4),))]),
     # F21: diff over repeat over a concatenate raises NotImplementedError
     ("F21", ("diff", ("repeat", ("concat", (("reduce", "all", ("src", 0), (0,), True, None), ("src", 1)), 0), 2, 0), 0),
      [(np.array([-1, 6, 13], dtype="int64"), ((1, 2),)), (np.array([True, True]), ((1, 1),))]),
@@ -152,6 +156,7 @@ def run_one(chk, da, prog, sources, want, tag=None):
         sig["zero_length_result"] = bool(np.size(sw) == 0)
         sig["swv_reduction_below_root"] = any(q[0] == "swv" and q[4] is not None for q in progs.all_nodes(small)[1:])
         sig["unoptimized_ok"] = bool(unopt)
+        sig["arg_reduction_split_every"] = small[0] == "reduce" and "arg" in small[1] and small[5] is not None
         sig["unstable_chunks_below_root"] = unstable_chunks_below(da, small, sources)
         if cls == "raises":
             import re as _re
